@@ -7,7 +7,7 @@ def _key(v):
     if not m:
         return (v[0], 99, 99, 99, 99)
     seq = m.group(2)
-    odd = v[1].count("x}") + v[1].count("x1}") + v[1].count("nocfg}") + v[1].count("n,") + (0 if "attach=add(child,required)/top-down" in v[1] else 1)
+    odd = v[1].count("x}") + v[1].count("x1}") + 2 * v[1].count("x2}") + v[1].count("nocfg}") + v[1].count("n,") + (0 if "attach=add(child,required)/top-down" in v[1] else 1)
     return (v[0], int(m.group(1)), 5 if seq.startswith("FRONTEND") else (0 if seq == "<none>" else seq.count(",") + 1), len(m.group(3)), odd)
 
 
